@@ -516,7 +516,11 @@ example : RbV.Gen.SrcMyersSimple.step_ (w := 8) (wd := 8) (peq := [0, 0b101, 0b0
 `maxSt` of the stored-state pipeline model behind `traceback_model_sound` — every word width `w ≥ 2`; side conditions: the
 checked `dist -= 1` / `dist += 1` stay inside `DistType` (true along every traceback of a hit: `handler_reads_true_cells`).
 `ShortTracebackHandler::new` / `move_to_left` and `State::adjust_by_mask` are the next three theorems.
-**Missing for the full statement**: `Traceback::{new, add_state, traceback_at, _traceback_at}` (generic over the handler
+`Traceback::_traceback_at` itself is translated too (`Gen/SrcMyersTbLoop.lean`) and proved equal to the model's `tracebackRd`
+(`Thm/GenSrcMyersTbLoop.lean: step_eq, loop_eq, tracebackAt_eq_model`) — as a **soft** module, because the order of the Ins / Del
+tests (which of several optimal paths) is not determined by C10 (seeded C10-H1 / C10-H4 change it).
+**Missing for the full statement**: `Traceback::{new, add_state, traceback_at}`, `ShortStatesHandler`, the derivation of the side
+conditions `RunOk` from the invariant `HInv` of `Lemmas/TracebackState.lean` (generic over the handler
 traits; the loop with `break`), hence also the corollary `traceback_source_sound` and everything of `LongTracebackHandler` — these
 stay tied by the mirror model + `tb-state-model-same` on every sampled search. -/
 theorem traceback_source_eq_model_partial (w wd : Nat) (h : RbV.Model.MyersTraceback.Handler w) (hw : 1 < w) (adj : Bool)
